@@ -146,6 +146,9 @@ def dump_lines(objs):
     return lines
 
 
+_PASS = [0]
+
+
 def load_real(data, codec, encoding, how, plan, tmpdir):
     """file bytes -> (items, reader or None, ended) through the real load_from_file"""
     import rxsci.container.json as rj
@@ -169,7 +172,13 @@ def load_real(data, codec, encoding, how, plan, tmpdir):
         state['ended'] = 'error:%s' % type(e).__name__
     try:
         with C.quiet_stdout():
-            rj.load_from_file(src, **kw).subscribe(
+            loaded = rj.load_from_file(src, **kw)
+            _PASS[0] += 1
+            if how == 'path' and _PASS[0] % 2 == 0:
+                # the observable returned by load_from_file is subscribed a second time (a
+                # second pass over the file): the second pass is the one that is judged
+                loaded.subscribe(on_next=lambda i: None, on_error=lambda e: None)
+            loaded.subscribe(
                 on_next=items.append, on_error=on_error,
                 on_completed=lambda: state.__setitem__('ended', 'completed'))
     except Exception as e:
@@ -525,7 +534,7 @@ def rnd_dict(rng, depth, nkeys):
 def rnd_case(desc):
     """everything about a random execution is derived from (seed, n, size)"""
     rng = random.Random(desc['seed'] * 1000003 + desc['n'] * 7 + {'empty': 0, 'tiny': 1, 'medium': 2,
-                                                                   'big': 3}[desc['size']])
+                                                                   'big': 3, 'aligned': 4}[desc['size']])
     size = desc['size']
     codec = rng.choice(['none', 'gzip', 'zstd'])
     encoding = 'utf-8'
@@ -533,6 +542,25 @@ def rnd_case(desc):
         encoding = 'utf-16'
     tagged = rng.random() < 0.8
     objs = []
+    if size == 'aligned':
+        # a chosen character starts exactly at byte offset 65536 (or 131072) of the
+        # uncompressed file, inside a string value: U+FEFF, a 2/3/4-byte character, NEL,
+        # LINE SEPARATOR ...
+        import orjson
+        codec, encoding, tagged = 'none', 'utf-8', True
+        ch = ['\ufeff', '\u00e9', '\u20ac', '\U0001f600', '\u0085', '\u2028', '\ufeff', '\ufeff'][desc['n'] % 8]
+        k = 1 + desc['n'] % 2
+        shift = [0, 0, 0, -1, -2, 1][desc['n'] % 6]     # also: the boundary inside the character
+        pre = [{'_id': 1, 't': rnd_text(rng, 50, 'mixed')}]
+        head = len((orjson.dumps(pre[0]).decode() + '\n').encode('utf-8'))
+        probe = {'_id': 2, 't': ''}
+        p0 = len(orjson.dumps(probe)) - 2        # bytes of line 2 before the string content
+        pad = CHUNK * k - head - p0 + shift
+        objs = pre + [{'_id': 2, 't': 'a' * pad + ch + 'Z' + rnd_text(rng, 20, 'mixed')},
+                      {'_id': 3, 't': rnd_text(rng, 30, 'wide')}]
+        def plan_none(data, lines_b):
+            return None
+        return objs, codec, encoding, 'path', rng.choice(['path', 'fileobj']), plan_none, tagged
     if size == 'tiny':
         for _ in range(rng.choice([1, 1, 2, 3, 5])):
             objs.append(rnd_dict(rng, rng.choice([0, 1, 3]), rng.choice([0, 0, 1, 2, 3])))
@@ -734,8 +762,8 @@ def main(tier, replay):
                               'load_how': 'open_obj' if i % 5 == 4 else 'fileobj',
                               'dump_how': {0: 'open_obj', 1: 'path'}.get(i % 11, 'fileobj')})
     n_beh = len(cases)
-    sizes = (['empty'] * 6 + ['tiny'] * 60 + ['medium'] * 40 + ['big'] * 14) if not thorough else \
-            (['empty'] * 12 + ['tiny'] * 400 + ['medium'] * 300 + ['big'] * 160)
+    sizes = (['empty'] * 6 + ['tiny'] * 60 + ['medium'] * 40 + ['big'] * 14 + ['aligned'] * 8) if not thorough else \
+            (['empty'] * 12 + ['tiny'] * 400 + ['medium'] * 300 + ['big'] * 160 + ['aligned'] * 48)
     for n, size in enumerate(sizes):
         cases.append({'kind': 'rnd', 'seed': seed, 'n': n, 'size': size})
     traces, infos = [], []
